@@ -47,7 +47,7 @@ ASSUMPTIONS = [
 ]
 BOUNDS = {
     "quick": "G0 (3 cells): 36 creation/set orders x 18 whole splits x default@s1, 2 orders x all 54 splits x {default@s1, dense@s1, default@s0} at depth 1; depth 2 over 24 operations on 2 systems; G1 (md): 38 whole + 3 restricted splits x 3 at depth 1, depth 2 over 26 operations on 1 system",
-    "thorough": "G0: 36 orders x 54 splits x 4 (inverter, state) at depth 1, depth 2 over 36 operations on 6 systems, depth 3 over 18 operations on 1 system; G1: all 5494 splits x 3 on 2 systems at depth 1, depth 2 over 82 operations on 2 systems",
+    "thorough": "G0: 36 orders x 54 splits x 4 (inverter, state) at depth 1, depth 2 over 36 operations on 6 systems, depth 3 over 18 operations on 1 system; G1: all 5494 splits x {default@s1, dense@s1, default@s0} on one system and x default@s1 on a second at depth 1, depth 2 over 82 operations on 2 systems",
 }
 MIN_CLASSES = 4
 CHUNK = 1
@@ -90,7 +90,8 @@ def cases(tier):
     g1_systems = [("abc", "abc"), ("cab", "bca")] if rich else [("bca", "cab")]
     for vo, eo in g1_systems:
         sp = gs.all_splits("G1", vo, eo) if rich else gs.whole_splits("G1", vo, eo) + gs.restricted_samples("G1", vo, eo)
-        ops = [{"split": s, "inv": i, "state": st} for s in sp for i, st in all_combos[:3]]
+        ncombo = 1 if (rich and (vo, eo) != g1_systems[0]) else 3
+        ops = [{"split": s, "inv": i, "state": st} for s in sp for i, st in all_combos[:ncombo]]
         for k in range(0, len(ops), 120):
             out.append({"sys": ["G1", vo, eo], "prefix": [], "alphabet": ops[k:k + 120], "depth": 1})
     # ---- depth 2: all ordered pairs over the history alphabet (one case per first operation)
